@@ -21,7 +21,8 @@ ASSUMPTIONS = [
 ]
 MIN_NONTRIVIAL = {"quick": 6, "thorough": 30}
 CLASSES = ["hammer-same-row", "writes-vs-reader", "hammer-alt-rows", "reads-vs-writer", "yielding", "many-ports-one-bank",
-           "round-robin-banks", "dir-stream-plus-rowmiss-w", "dir-stream-plus-rowmiss-r", "yielding"]
+           "round-robin-banks", "dir-stream-plus-rowmiss-w", "dir-stream-plus-rowmiss-r", "yielding", "holes-r-vs-writer",
+           "holes-w-vs-reader"]
 LOCKOUT_CLASSES = ("hammer-same-row", "hammer-alt-rows", "many-ports-one-bank")
 
 
@@ -59,8 +60,12 @@ def cases(tier, seed):
         if cls.startswith("dir-stream-plus-rowmiss"):
             mem["bankbits"] = 2
             nports = r.choice([3, 4])
+        if cls.startswith("holes-"):
+            mem["bankbits"] = 2
+            nports = r.choice([2, 3, 3])
         wl = {"class": cls, "nops": 100000, "victim_ops": 100000, "master_mode": "fifo", "hot_rows": 2, "hot_cols": 2,
-              "wr_frac": r.choice([0.0, 0.5, 1.0]) if cls in LOCKOUT_CLASSES else 0.5, "we_style": "full"}
+              "wr_frac": r.choice([0.0, 0.5, 1.0]) if cls in LOCKOUT_CLASSES else 0.5, "we_style": "full",
+              "hole_period": r.choice([1, 1, 2, 5, 13]), "rowmiss_gap": r.choice([120, 250, 400])}
         cfg = dict(mem=mem, cs=cs, nports=nports, workload=wl, seed="C05/%d/%d" % (seed, k), trefi_override=r.randint(100, 140),
                    max_cycles=0, sweep=False)
         cfg["name"] = "%03d-%s-%s-p%d-d%d%s" % (k, fam, cls, nports, cs["cmd_buffer_depth"], "-2r" if mem.get("nranks") == 2 else "")
